@@ -20,11 +20,13 @@ EXPLANATION = (
     'exactly as the reference ladder: assignment/ternary < or < and < comparison (no chaining) < + - < * / % (left assoc.) < unary (no stacking) < call/method/index < '
     'paren/array/dict < atoms; in_ternary is tested before, set during both arm parses and reset after; accept/accept_any/expect consume iff matched. '
     'R2: for all 13 binary and 2 unary operators + indexing the chain source text -> lexer tables -> token id -> parser map -> node string -> operator.MAPPING -> MesonOperator '
-    '-> evaluator call (receiver/argument roles, swap exactly for in/not in) -> holder implementation is the identity on the operator meaning (held value left, container for in). '
+    '-> evaluator call (receiver/argument roles, swap exactly for in/not in) -> holder implementation is the identity on the operator meaning (held value left, container for in; '
+    '`not (a in b)` is `a not in b`; an in/not in that is handed to a same-class scan which calls itself on the loop element - descent into nested arrays - is a violation). '
     'R3: the effective operator table of Integer/String/Boolean/Array/Dict/RangeHolder (supported set, operand guard) equals the reference typing table; zero test of // and %; '
     'index errors become InvalidArguments; exact-type ==/!=; operator_call and typed_operator enforce the guard; BOOL/NOT only on booleans. '
     'R4: and/or/ternary/if evaluate the right operand / arm / block only under the documented polarity, left before right; foreach maps Continue/BreakRequest to continue/break '
-    'around exactly the body. R5: every node class a statement position can hold has an arm in evaluate_statement, subclasses before bases, bool tested before int, '
+    'around exactly the body, and no evaluator function that can stand between a loop body and the raising statement (closed world: methods of InterpreterBase/Interpreter on a call cycle '
+    'through evaluate_codeblock, dispatch through method references included - e.g. the runner of a subdir() file) catches these requests without re-raising them. R5: every node class a statement position can hold has an arm in evaluate_statement, subclasses before bases, bool tested before int, '
     'int/bool/str/list/dict registered to their holders with exact-type lookup first. R6: no method/operator/lambda of the primitive holders and no evaluator function mutates '
     'a held value in place (may-alias analysis); held_object and self.variables have one writer; += stores a new holder; assignment deep-copies MutableInterpreterObject; '
     'holders that change their held object carry the mutable marker. R7: escapes are decoded iff the token is single-line, the escape regex accepts exactly the list of Syntax.md, '
@@ -38,10 +40,12 @@ EXPLANATION = (
     'R16: the decision table of range() over the ordering worlds of (start, 0), (stop, start), (step, 1) for the three call forms raises exactly for start < 0, stop < start or step < 1 and otherwise returns '
     'RangeHolder(start, stop, step) with the defaults start=0, step=1 (docs/yaml/functions/range.yaml). '
     'Helpers are read by role, not by name: private/static methods of the MRO and private module-level functions are spliced in (also at `raise helper()` and in argument position), '
-    '`getattr(x, \'lit\')` is `x.lit`, loops over constant tables are unrolled, tables built by one-expression builder functions are folded. '
+    '`getattr(x, \'lit\')` is `x.lit`, loops over constant tables are unrolled, tables built by one-expression builder functions are folded; '
+    'accept_any over a pairing table (token id -> node class / tuple / NamedTuple record) or a literal tuple of ids is read as one case per declared id, TABLE[token] / its items / fields resolved per case; '
+    '`raise self.helper(..)` in expect/block_expect is the class every return of the helper constructs. '
     'Does NOT decide: the value a particular program yields, arithmetic on concrete numbers, .format()/f-string rendering (including which nested strings stringifyUserArguments quotes: '
     'the reference gives no table for that text), semantics delegated to Python str/list methods, '
-    'subdir()/subproject() scoping, and that `int` operand guards also admit Python bools (documented legacy for integers).')
+    'subdir()/subproject() variable scoping (only the passage of break/continue through subdir() is decided, R4), what break/continue do outside any loop or across subproject(), and that `int` operand guards also admit Python bools (documented legacy for integers).')
 ASSUMPTIONS = [
     'Python operators on int/str/list/dict/range and codecs unicode_escape behave as documented',
     'callees that are not resolved inside the analysed class return fresh values (R6 may-alias analysis); unknown idioms end undecided, not violated',
